@@ -996,7 +996,7 @@ impl FromStr for Duration {
         let (hours, minutes, seconds, millis, micros, nanos) = match parse_record.time {
             Some(TimeDurationRecord::Hours { hours, fraction }) => {
                 let unadjusted_fraction =
-                    fraction.and_then(|x| x.to_nanoseconds()).unwrap_or(0) as u64;
+                    u64::from(crate::parsers::fraction_to_billionths(fraction)?);
                 let fractional_hours_ns = unadjusted_fraction * 3600;
                 let minutes = fractional_hours_ns.div_euclid(60 * 1_000_000_000);
                 let fractional_minutes_ns = fractional_hours_ns.rem_euclid(60 * 1_000_000_000);
@@ -1026,7 +1026,7 @@ impl FromStr for Duration {
                 fraction,
             }) => {
                 let unadjusted_fraction =
-                    fraction.and_then(|x| x.to_nanoseconds()).unwrap_or(0) as u64;
+                    u64::from(crate::parsers::fraction_to_billionths(fraction)?);
                 let fractional_minutes_ns = unadjusted_fraction * 60;
                 let seconds = fractional_minutes_ns.div_euclid(1_000_000_000);
                 let fractional_seconds = fractional_minutes_ns.rem_euclid(1_000_000_000);
@@ -1053,7 +1053,7 @@ impl FromStr for Duration {
                 seconds,
                 fraction,
             }) => {
-                let ns = fraction.and_then(|x| x.to_nanoseconds()).unwrap_or(0);
+                let ns = crate::parsers::fraction_to_billionths(fraction)?;
                 let milliseconds = ns.div_euclid(1_000_000);
                 let rem = ns.rem_euclid(1_000_000);
 
